@@ -53,6 +53,15 @@ def canon_B(b):
     return 'B:%s:%s' % (sc, ','.join('1' if v else '0' for v in flat) if len(flat) else '-')
 
 
+def operand_state(o):
+    """canonical, comparable state of an operand of any kind (time object: unit + payload; array: dtype + values)"""
+    if isinstance(o, ts().TimeInterface):
+        return canon_T(o)
+    if isinstance(o, np.ndarray):
+        return 'A:%s:%s' % (o.dtype, ','.join(repr(v) for v in o.reshape(-1).tolist()))
+    return 'P:%s:%r' % (type(o).__name__, o)
+
+
 def mk_T(unit, scalar, ps):
     """a real TimeArray with exactly this payload"""
     T = ts().TimeArray
@@ -266,11 +275,38 @@ def cases(rng, tier, seed):
                 meta.update(op=opn, self=(ua, sc, ps))
                 fn = OPS_AR.get(opn) or OPS_CMP[opn]
                 canon = canon_T if opn in OPS_AR else canon_B
-                impl = call(lambda: 'ok ' + canon(fn(mk_T(ua, sc, ps), build())))
+                # the operands as objects, so that they can be looked at again after the operation: neither the time
+                # object nor the other operand (value, unit, dtype) may have changed
+                o_self, o_other = mk_T(ua, sc, ps), build()
+                b_self, b_other = canon_T(o_self), operand_state(o_other)
+                impl = call(lambda: 'ok ' + canon(fn(o_self, o_other)))
+                meta['operands_unchanged'] = (canon_T(o_self) == b_self and operand_state(o_other) == b_other)
+                meta['operands_after'] = [canon_T(o_self), operand_state(o_other)]
                 if impl.startswith('err'):
                     impl = 'err ValueError'   # numpy broadcasting errors are ValueError
                 out.append(Case('C01 binop %s %s %s' % (opn, tok_T(ua, sc, ps), tok), impl,
                                 'binop/%s/%s' % (opn, kind), meta=meta, nontrivial=any(ps)))
+    # --- sequences: the SAME number given as float and then as int (and the other way round): a conversion cached
+    # on the value would hand the int the float-rounded picoseconds (n*factor beyond 2^53 and not a double)
+    for rep in range(12 * n):
+        ua = rng.choice(['ns', 'us', 'ms'])
+        f = FACTOR[ua]
+        top = (LIM - 1) // f // 4
+        k = rng.randint(2**53 // f + 1, top) | 1            # odd: k*f is not representable when f has few factors 2
+        for first, second in ((float, int), (int, float)):
+            k += 2
+            if float(k) != k:
+                continue
+            for conv in (first, second):
+                for opn in ('add', 'eq', 'rsub'):
+                    v = conv(k)
+                    ps = [rng.randint(-10**6, 10**6), k * f]
+                    meta = {'kind': 'pyint' if conv is int else 'pyfloat', 'scalar': True, 'vals': [v], 'op': opn, 'self': (ua, False, ps)}
+                    fn = OPS_AR.get(opn) or OPS_CMP[opn]
+                    canon = canon_T if opn in OPS_AR else canon_B
+                    impl = call(lambda: 'ok ' + canon(fn(mk_T(ua, False, ps), v)))
+                    out.append(Case('C01 binop %s %s N:1:%s' % (opn, tok_T(ua, False, ps), tok_num(v)), impl,
+                                    'binop/%s/%s' % (opn, meta['kind']), meta=meta))
     # --- reductions and convert_unit
     for it in range(150 * n):
         u, sc, ps = gen_T(rng, big=False)
@@ -377,6 +413,8 @@ def check_case(c):
             return fail('value', 'reduction %s: want %d ps in unit %s' % (m['red'], want, u))
         return None
     # binary operators
+    if m.get('operands_unchanged') is False:
+        return fail('operand-changed', 'an operand was modified by the operation: after = %s' % (m.get('operands_after'),))
     ua, sa, psa = m['self']
     if m['kind'] == 'time':
         b_lo = b_hi = [Fr(p) for p in m['ps']]
@@ -495,5 +533,11 @@ def rebuild_case(line, clause, m):
     else:
         fn = OPS_AR.get(op) or OPS_CMP[op]
         canon = canon_T if op in OPS_AR else canon_B
-        impl = call(lambda: 'ok ' + canon(fn(mk_T(*m['self']), operand())))
+        o_self, o_other = mk_T(*m['self']), operand()
+        b_self, b_other = canon_T(o_self), operand_state(o_other)
+        impl = call(lambda: 'ok ' + canon(fn(o_self, o_other)))
+        if impl.startswith('err'):
+            impl = 'err ValueError'
+        m['operands_unchanged'] = (canon_T(o_self) == b_self and operand_state(o_other) == b_other)
+        m['operands_after'] = [canon_T(o_self), operand_state(o_other)]
     return Case(line, impl, clause, meta=m)
